@@ -136,9 +136,10 @@ AdvPairParams ==
       lp2 \in {100, 200}, a2 \in {32, 31}, p2 \in PeerLists, n2 \in NodeSels, t2 \in Targets}
   \cup
   {[kind |-> "advpairs", n |-> [k \in Kinds |-> CASE k = "bgpadvs" -> 3 [] k \in {"pools", "peers", "nodes"} -> 2 [] OTHER -> 0],
-    advs |-> <<AdvSpec(100, 32, p1, n1, "all"), AdvSpec(lp2, 32, p2, n2, "named"), AdvSpec(300, 32, <<>>, <<>>, "selected")>>,
+    advs |-> <<AdvSpec(100, 32, p1, n1, "all"), AdvSpec(lp2, 32, p2, n2, "all"), AdvSpec(300, 32, p3, n3, "all")>>,
     pin |-> "advpairs", adv |-> "all", bad |-> "none"] :
-      p1 \in PeerLists, n1 \in {<<>>, <<"a">>}, lp2 \in {100, 200}, p2 \in PeerLists, n2 \in {<<>>, <<"b">>}}
+      p1 \in PeerLists, n1 \in NodeSels, lp2 \in {100, 200}, p2 \in PeerLists, n2 \in NodeSels, p3 \in PeerLists, n3 \in NodeSels}
+  (* (three: the third may clash with exactly one of the other two) *)
 
 AdvPairObjs(s) ==
   [pools |-> <<[name |-> "pool-a", lab |-> "x", cidrs |-> <<1>>, ns |-> <<>>, sel |-> FALSE, nssel |-> FALSE, prio |-> 0],
